@@ -116,19 +116,30 @@ def reflection_point(ctx, ck):
         raise AnalysisError('%s: comparison of the specular point with the media boundaries not found (%d candidates)'
                             % (FAR, len(cands)))
     cmp_, dist = cands[0]
+    ck.rule('R-ORDER.medium-selection', 'a reflection falls on the first medium whose boundary it does not exceed')
+    from ._mediumsel import check_medium_selection
+    check_medium_selection(ctx, ck, f, fl, cmp_, dist)
     st = enclosing(cmp_)
+    # the block in which the compared distance is computed: the one holding the comparison, or one around it
     blk = None
-    for x_ in ast.walk(f.node):
-        for fld in ('body', 'orelse', 'finalbody'):
-            lst = getattr(x_, fld, None)
-            if isinstance(lst, list) and any(y_ is st for y_ in lst):
-                blk = lst
-    if blk is None:
-        raise AnalysisError('%s: block of the media comparison not found' % FAR)
-    icmp = [i_ for i_, y_ in enumerate(blk) if y_ is st][0]
-    first = [i_ for i_, y_ in enumerate(blk[:icmp]) if isinstance(y_, ast.Assign) and
-             any(isinstance(t_, ast.Name) and t_.id == dist.id for t_ in y_.targets) and
-             not any(isinstance(z_, ast.Name) and z_.id == dist.id and isinstance(z_.ctx, ast.Load) for z_ in ast.walk(y_.value))]
+    first = None
+    top = st
+    for _up in range(6):
+        blk = None
+        for x_ in ast.walk(f.node):
+            for fld in ('body', 'orelse', 'finalbody'):
+                lst = getattr(x_, fld, None)
+                if isinstance(lst, list) and any(y_ is top for y_ in lst):
+                    blk, holder = lst, x_
+        if blk is None:
+            raise AnalysisError('%s: block of the media comparison not found' % FAR)
+        icmp = [i_ for i_, y_ in enumerate(blk) if y_ is top][0]
+        first = [i_ for i_, y_ in enumerate(blk[:icmp]) if isinstance(y_, ast.Assign) and
+                 any(isinstance(t_, ast.Name) and t_.id == dist.id for t_ in y_.targets) and
+                 not any(isinstance(z_, ast.Name) and z_.id == dist.id and isinstance(z_.ctx, ast.Load) for z_ in ast.walk(y_.value))]
+        if first or not isinstance(holder, (ast.For, ast.If, ast.While)):
+            break
+        top = holder
     if not first:
         raise AnalysisError('%s: the compared distance %s is not computed in the block of the comparison' % (FAR, dist.id))
     paths = [p_ for p_ in SymExec(ctx, f, expand=False).run(stmts=blk[first[-1]:icmp]) if p_.end is None]
